@@ -500,7 +500,9 @@ def gen_iter_scripts(tier, seed, variant):
         which = rng.choice(["map", "map", "set", "table"])
         if which == "map":
             blk = gen_map.make_script(rng, f"i{seed}_{i}")
-            ins = lambda: rng.choice(["iter", f"iterfold {rng.randrange(0, 40)}", "iter", f"drain {rng.choice([0, 1, 2, 5, 1000])}"])
+            # owning / draining iterators advanced by next() and then consumed through fold (no panic: k = 1000000)
+            ins = lambda: rng.choice(["iter", f"iterfold {rng.randrange(0, 40)}", "iter", f"drain {rng.choice([0, 1, 2, 5, 1000])}",
+                                      f"{rng.choice(['drain', 'drain', 'intoiter', 'intokeys', 'intovalues'])}fold {rng.choice([0, 1, 1, 2, 3, 7])} 1000000"])
         elif which == "set":
             blk = gen_set.make_script(rng, f"i{seed}_{i}")
             ins = lambda: rng.choice(["A iter", "B iter", f"A drain {rng.choice([0, 1, 1000])}"])
